@@ -52,8 +52,8 @@ Acking == {x \in ConnsC : sst[x] = "acking"}
 PStart(c)   == /\ sst[c] = "new" /\ Busy < 3
                /\ sst' = [sst EXCEPT ![c] = "started"]
                \* (abandon families: while a slow reader's CONNACK is pending, the attempts that start use its client id - takeovers)
-               /\ (Abandon = "superseded" /\ Acking # {}) => \E x \in Acking : IdOf[x] = IdOf[c]
-               /\ \E sl \in BOOLEAN : /\ (sl /\ Abandon # "no") => \A x \in pslow : sst[x] \in {"abandoned", "ended"}    \* (one slow reader at a time)
+               /\ ((Abandon = "superseded" /\ Acking # {}) => (\E x \in Acking : IdOf[x] = IdOf[c]))
+               /\ \E sl \in BOOLEAN : /\ ((sl /\ Abandon # "no") => (\A x \in pslow : sst[x] \in {"abandoned", "ended"}))    \* (one slow reader at a time)
                                        /\ pslow' = (IF sl THEN pslow \cup {c} ELSE pslow)
                                        /\ out' = ToJson([a |-> "start", c |-> c, id |-> IdOf[c], slow |-> sl])
                /\ UNCHANGED <<nrel, sup>>
